@@ -8,6 +8,7 @@ from . import c02
 PROPERTY = "C09"
 TRACE_MODULE = "MastersTrace"
 TRACE_CFG = "MastersTrace.cfg"
+ACCEPTORS = {"_default": ("MastersTrace", "MastersTrace.cfg"), "vf": ("VFTrace", "VFTrace.cfg")}
 RULE = ("random families of 2-3 point-compatible masters (a random exact-domain master + perturbations: moved points, offsets, "
         "advances; cubic, quadratic and mixed curves; a component whose 2x2 differs in one master only; mixed glyphs; nested "
         "components) plus optionally a sparse layer master holding a subset of glyphs x {compileInterpolatableTTFs, "
@@ -128,6 +129,11 @@ def cases(tier, seed):
         out.append({"cid": f"c09-{seed}-{k}", "lib": rng.choice(["ufoLib2", "defcon"]), "path": path, "masters": masters,
                     "sparse": sparse, "kwargs": kwargs, "skip": skip, "post": post,
                     "sparseUfo": bool(sparse) and not directed and not nested and want_standalone})
+    # several variable fonts cut from one designspace share masters: joint decisions (which composites become contours, how
+    # many quadratic segments a cubic needs) are taken over ALL masters of the interpolable space, not per variable font
+    from . import c10
+
+    out += c10.vfs_cases(random.Random(seed * 353868013 + 90009), 5 if tier == "quick" else 50, f"c09-{seed}")
     return out
 
 
@@ -174,6 +180,10 @@ def _struct_cff(f):
 def execute(case):
     import ufo2ft
 
+    if case.get("vfs"):
+        from . import c10
+
+        return c10.execute_vfs(case)
     lib = case["lib"]
     nm = len(case["masters"])
     locs = [0, 8] if nm == 2 else [0, 4, 8]
@@ -238,6 +248,8 @@ def execute(case):
 
 
 def nontrivial(rec):
+    if rec.get("_acc") == "vf":
+        return rec.get("_k", 0) > 0
     return any(g["comps"] for gs in rec["src"] for g in gs.values())
 
 
@@ -250,5 +262,5 @@ def classify(rec, pfail, mfail, extra, rep):
         rep.notes["known_paths"][rec["path"]] = rep.notes["known_paths"].get(rec["path"], 0) + 1
         return "known:F-C09-1"
     if pfail != "none":
-        rep.notes.setdefault("witnesses", []).append({"tid": rec["tid"], "clause": pfail, "err": rec.get("err", ""), "path": rec["path"]})
+        rep.notes.setdefault("witnesses", []).append({"tid": rec["tid"], "clause": pfail, "err": rec.get("err", ""), "path": rec.get("path", "VFs")})
     return None
